@@ -163,6 +163,7 @@ def check(ctx):
     super_targets_do_not_redispatch(ctx)
     oset_eq_is_ordered(ctx)
     oset_link_writers(ctx)
+    modict_raw_lists(ctx)
 
 
 def super_targets_do_not_redispatch(ctx):
@@ -237,3 +238,24 @@ def oset_link_writers(ctx):
             dirs = {x.slice.value for x in ring}
             ctx.check(dirs == {1, 2}, "T4-oset", ring[0], "oset.%s updates both link directions (%s)" % (name, sorted(dirs)), "forward and backward iteration must agree")
     ctx.floor("T4-oset:writers", k, 3)
+
+
+def modict_raw_lists(ctx):
+    """modict stores a list of values per key; `self[key]` is its *newest value* (modict.__getitem__), `self.items()/values()` the
+    newest values.  A modict method that needs the list must go through super(): indexing or iterating `self[key]` as if it were
+    the list reads a character of a string, raises TypeError on a number (swallowed by get's catch-all -> None) ..."""
+    ctx.rule("T7-rawlist", "modict methods never subscript/iterate self[key] as the value list (they use super().__getitem__ / get)")
+    M = ctx.cls("aid.odicting", "modict")
+    k = 0
+    for name, f in M.methods.items():
+        for x in ast.walk(f):
+            if isinstance(x, ast.Subscript) and isinstance(x.value, ast.Subscript) and dotted(x.value.value) == "self":
+                k += 1
+                ctx.bad("T7-rawlist", x, "modict.%s: %s" % (name, src(x)[:50]),
+                        "self[key] is the newest value, not the list of values: indexing it returns None (TypeError swallowed) for "
+                        "numbers and the last character for strings instead of the newest / indexed value")
+            elif isinstance(x, ast.For) and isinstance(x.iter, ast.Subscript) and dotted(x.iter.value) == "self":
+                k += 1
+                ctx.bad("T7-rawlist", x, "modict.%s iterates %s" % (name, src(x.iter)), "self[key] is one value, not the list")
+    if not k:
+        ctx.ok("T7-rawlist", M.node, "%d modict methods reach their value lists through super()" % len(M.methods))
